@@ -23,6 +23,8 @@ reference and, in simnet, the logs below are shared memory).
 from __future__ import annotations
 
 import logging
+import os
+import signal
 from typing import Any
 
 from bqskit.compiler.basepass import BasePass
@@ -32,6 +34,14 @@ EXEC_LOG: list[tuple] = []      # (tag, worker id, 'start'|'end'|'raise', step, 
 AWAIT_LOG: list[tuple[str, str, str, Any]] = []  # (tag, var, kind, value)
 _logger = logging.getLogger('verif.workload')
 now = lambda: 0  # noqa: E731  (the runner rebinds this to the scheduler's step counter)
+
+
+def _maybe_crash(tag: str, phase: str) -> None:
+    """procnet only: die by SIGKILL at a chosen (tag, phase). The variable
+    is inherited by every real runtime process; simnet never sets it."""
+    at = os.environ.get('VERIF_CRASH_AT')
+    if at and at == '%s:%s' % (tag, phase):
+        os.kill(os.getpid(), signal.SIGKILL)
 
 
 def reset_logs() -> None:
@@ -47,6 +57,7 @@ async def run_tree(tree: dict) -> Any:
     addr = list(at.return_address) if at is not None else None
     crumbs = [list(b) for b in at.breadcrumbs] if at is not None else []
     EXEC_LOG.append((tag, wid, 'start', now(), addr, crumbs))
+    _maybe_crash(tag, 'start')
     futs: dict[str, Any] = {}
     sizes: dict[str, int] = {}
     got: list[Any] = []
@@ -60,6 +71,7 @@ async def run_tree(tree: dict) -> Any:
                 futs[st[1]] = rt.map(run_tree, list(st[2]))
                 sizes[st[1]] = len(st[2])
             elif op == 'await':
+                _maybe_crash(tag, 'mid')
                 v = await futs[st[1]]
                 AWAIT_LOG.append((tag, st[1], 'await', v))
                 got.append(v)
@@ -97,6 +109,7 @@ async def run_tree(tree: dict) -> Any:
         EXEC_LOG.append((tag, wid, 'closed'))
         raise
     EXEC_LOG.append((tag, wid, 'end'))
+    _maybe_crash(tag, 'end')
     return ['R', tag, got]
 
 
